@@ -45,6 +45,7 @@ func init() {
 	registerRule("R53", ruleR53)
 	registerRule("R54", ruleR54)
 	registerRule("R55", ruleR55)
+	registerRule("R56", ruleR56)
 	registerRule("R39", ruleR39R40)
 	registerRule("R40", func(c *Ctx) { c.run("R39") })
 	registerRule("R37", func(c *Ctx) { c.run("R21") })
@@ -86,8 +87,8 @@ func init() {
 		NotDecided: "That children inside a 4/16-slot node are kept in ascending byte order (insertPosNode4/16: SWAR/SIMD arithmetic) and that the key encodings are monotone (C07's value-level part)."})
 	registerProp(&propSpec{ID: "C03", Level: "other", DesignRef: "§4 C03",
 		Rules:      []string{"R12", "R11", "R13", "R39", "R09", "R01", "R08", "R06", "R27"},
-		Explain:    "Range: R12 the scan and the open-end bound are guarded against an empty tree (nil root, nil maximum); R11 the key depth is carried per stack entry, not per scan; R13 every yield is dominated by both leaf-level bound comparisons with the right argument roles, a key below the lower bound is skipped rather than ending the scan, callers normalise reversed bounds by a swap, the equal-bounds sequence yields only under a successful Search; R09 the scan enumerates children like the other traversals; R01 slicing of the bounds' common prefix is guarded; R08 the bounds get the same key normalisation as stored keys. R39 the scan ends only on an empty stack, a false yield or a key above the upper bound; R27 no captured state is mutated. R54 the pruning idiom of the scan (skip a subtree when longestCommonPrefix(node path, window of the bounds' common prefix) == 0) compares provably non-empty byte strings (linear facts: prefixLen >= 1, depth < len(search)); R11 every child is pushed with the position computed for the children of the popped node.",
-		NotDecided: "That the common-prefix pruning (skip a subtree whose compressed path mismatches the bounds' common prefix) never removes a subtree intersecting the range – a value-level argument about byte positions."})
+		Explain:    "Range: R12 the scan and the open-end bound are guarded against an empty tree (nil root, nil maximum); R11 the key depth is carried per stack entry, not per scan; R13 every yield is dominated by both leaf-level bound comparisons with the right argument roles, a key below the lower bound is skipped rather than ending the scan, callers normalise reversed bounds by a swap, the equal-bounds sequence yields only under a successful Search; R09 the scan enumerates children like the other traversals; R01 slicing of the bounds' common prefix is guarded; R08 the bounds get the same key normalisation as stored keys. R39 the scan ends only on an empty stack, a false yield or a key above the upper bound; R27 no captured state is mutated. R54 the pruning idiom of the scan (skip a subtree when longestCommonPrefix(node path, window of the bounds' common prefix) == 0) compares provably non-empty byte strings (linear facts: prefixLen >= 1, depth < len(search)), and every skip of an inner node in a stack traversal happens under a condition that witnesses a differing byte inside both strings (no common first byte; !HasPrefix(x, y) with len(y) <= len(x); a match length below a threshold that stays within both strings) – a one-directional prefix test or a threshold taken from the node alone is reported, any other condition is undecided; R11 every child is pushed with the position computed for the children of the popped node.",
+		NotDecided: "That the window of the bounds' common prefix a node's compressed path is compared with is the one at the node's key position (the position arithmetic of the scan beyond R11's per-entry depth) – a value-level argument about byte positions."})
 	registerProp(&propSpec{ID: "C04", Level: "other", DesignRef: "§4 C04",
 		Rules:      []string{"R13", "R40", "R39", "R11", "R10", "R06", "R09", "R01", "R12", "R27", "R44"},
 		Explain:    "Prefix: R13 every yield of the filtering scan is dominated by the predicate, which calls bytes.HasPrefix(stored key, requested prefix) in that argument order – so nothing that does not start with p is yielded; the subtree selector is a single-path descent (no worklist: R11), indexes the prefix only under a length guard (R01), never reads a leaf as an inner node (R06) and is only entered with a non-nil root (R12); R09/R10 the scan enumerates every child of every node kind with in-range indexes. R40 Prefix returns the filtering scan (or All() for the empty prefix) and nothing else; R39 the scan ends only on an empty stack or a false yield.",
@@ -113,16 +114,16 @@ func init() {
 		Explain:    "R15, per key type and target architecture (constant-folded bits.UintSize branches): (A) abstract interpretation of Transform and Restore (checker/codecinterp.go). The values of a W-bit key type are split into classes on which the sign/top bit is fixed and the remaining bits m range over an interval (floats: NaN with sign clear/set, -Inf, negative numbers, -0, +0, positive numbers, +Inf; integers: top bit clear/set). On one class every word the codec computes is an affine function a*m+b with a in {-1,0,1}; the statements are executed on that domain with exact integer arithmetic and interval checks (no enumeration of values, no solver), branching on the conditions decidable per class. From the forms per class the checker decides in closed form: the encoding has the width of the type and is stored big-endian; the codes are strictly monotone in the order the property states (NaN < -Inf < negatives < -0 < +0 < positives < +Inf, all NaNs alike; integers by value), hence injective; Restore applied to Transform's word returns the input bits (NaN for NaN). (B) pattern clauses as before (arm for every term of the type set, slice length, BigEndian accessors of the type's width, sign constant, offset and special-code table equal in both directions); where (A) has decided an arm, the clauses that look for one way of writing the sign handling are informative only. R32 every reinterpreting cast is between pointer-free types of fitting size; R05 fixed width (prefix-free, concatenable).",
 		NotDecided: "What the abstract domain cannot express makes an arm UNKNOWN and leaves it to the pattern clauses: shifts other than by W-1, XOR/OR/AND with a constant whose low W-1 bits are neither all clear nor all set, arithmetic that may wrap on a class, calls outside math / encoding/binary / the library. Go's own conversion and math.Float*bits semantics and the IEEE-754 layout are trusted."})
 	registerProp(&propSpec{ID: "C10", Level: "other", DesignRef: "§4 C10", QuickArchs: []string{"amd64", "arm64", "386"},
-		Rules:      []string{"R19", "R09", "R10", "R22", "R20", "R37", "R41", "R43", "R44"},
-		Explain:    "R19 every use of a 4-lane SWAR search result as an index is under result < fill count (the search sees all four lanes, occupied or not), and deleteChild – the one unguarded user – is only called for a byte proven registered by findChild on the same reference; R09 the byte→child lookup of each size class and every inlined copy of it agree; R10 constant-range indexes fit [4]/[16]/[48]/[256]; R22 capacity guards equal the array lengths and shrink thresholds fit the smaller class; R20 each architecture sibling of the 16-lane routines (amd64 asm, arm64 asm, portable Go) makes its result depend on keys, fill count and probe byte, compares unsigned, and stores nothing but the result. R37 a class whose deleteChild leaves holes never takes slot childrenLen; R41 every deleteChild path vacates the slot; R43 every addChild path stores one child and bumps the fan-out once. R47 a single-lane store into the packed node4 key word replaces the lane (the lane is cleared on every path before the byte is OR-ed in): the removal shift leaves the former top lane as it was, so lanes beyond the fill count are not zero. R53 the lane helpers of the packed key word (read a lane, store a lane, open / close a gap) are decided by a lane-wise abstract interpretation (checker/laneinterp.go): the word is four symbolic lanes, the helper is executed for every position it is called with (shifts by whole lanes, lane-aligned masks), and the resulting lanes must be those of the children array after the copy() / element store of the calling block – the top lane may keep its byte or be cleared. R11/R22/R41 clauses: pushed positions, shrink-threshold chain, the shrink test is evaluated after every decrement.",
+		Rules:      []string{"R19", "R09", "R10", "R22", "R20", "R37", "R41", "R43", "R44", "R56"},
+		Explain:    "R19 every use of a 4-lane SWAR search result as an index is under result < fill count (the search sees all four lanes, occupied or not), and deleteChild – the one unguarded user – is only called for a byte proven registered by findChild on the same reference; the result of a lane search or of an insert-position search is compared with no constant but its not-found value (position 0 is a position); R56 the one-byte fan-out counter of a node that may be of the widest class is never tested in a way that tells 0 from 255 (a full node256 reads 0); R09 the byte→child lookup of each size class and every inlined copy of it agree; R10 constant-range indexes fit [4]/[16]/[48]/[256]; R22 capacity guards equal the array lengths and shrink thresholds fit the smaller class; R20 each architecture sibling of the 16-lane routines (amd64 asm, arm64 asm, portable Go) makes its result depend on keys, fill count and probe byte, compares unsigned, and stores nothing but the result. R37 a class whose deleteChild leaves holes never takes slot childrenLen; R41 every deleteChild path vacates the slot; R43 every addChild path stores one child and bumps the fan-out once. R47 a single-lane store into the packed node4 key word replaces the lane (the lane is cleared on every path before the byte is OR-ed in): the removal shift leaves the former top lane as it was, so lanes beyond the fill count are not zero. R53 the lane helpers of the packed key word (read a lane, store a lane, open / close a gap) are decided by a lane-wise abstract interpretation (checker/laneinterp.go): the word is four symbolic lanes, the helper is executed for every position it is called with (shifts by whole lanes, lane-aligned masks), and the resulting lanes must be those of the children array after the copy() / element store of the calling block – the top lane may keep its byte or be cleared. R11/R22/R41 clauses: pushed positions, shrink-threshold chain, the shrink test is evaluated after every decrement.",
 		NotDecided: "The SWAR/SIMD *comparison* arithmetic (2^40 / 2^140 inputs): that insertPosNode4/16 return the sorted position and searchNode4 the first matching lane, in Go and in the amd64/arm64 assembly. (The lane-moving helpers are decided by R53.)"})
 	registerProp(&propSpec{ID: "C11", Level: "other", DesignRef: "§4 C11",
 		Rules:      []string{"R06", "R07", "R21", "R22", "R23", "R03", "R04", "R24", "R37", "R41", "R43", "R10"},
 		Explain:    "R06 a reference is only ever read through the layout its tag names (120 casts under tag facts, 48 reference literals pairing pointer type and tag, pool assertions); R07 every kind switch has one arm per inner kind and a panicking default; R21 every grow/shrink copies every header field (prefixLen, childrenLen, prefix) to the replacement before releasing the old node; R22 capacity guards/thresholds are coherent with the array lengths; R23 node fields are written only by the node layer and the Insert split paths; R03/R04 the number of linked leaves moves in step with size on every path; R24 nodes are released only after the slot is relinked. R22 also: prefixLen is as wide as the leaves' key-length fields; R37/R41/R43 slot allocation, vacate-on-delete and fan-out bookkeeping of the node layer; R10 the grow/shrink loops over a byte-indexed table cover all 256 entries. R47 the packed key word registers a child under exactly its byte (lane cleared before the OR). R50 deleteChild of the smallest size class relinks the slot to the remaining child on every path on which the fan-out has dropped to one (a branch point keeps two children; a one-child node that stays linked is never collapsed later). R51 dispatchers hand every call on.",
 		NotDecided: "That prefix lengths/bytes equal the common extension of the keys below a node after split and merge (byte arithmetic), and history independence of the shape."})
 	registerProp(&propSpec{ID: "C12", Level: "other", DesignRef: "§4 C12",
-		Rules:      []string{"R24", "R25", "R30", "R06", "R14", "R42"},
-		Explain:    "Pool typestate for each of the 7 releases: the node is cleared in the statement before Put, clear() resets every field of the struct (header included), the node is not used after release, the slot referencing it was overwritten before, its type matches the pool index, and every Get is asserted to the layout of its index (R24, R06); the only per-tree state is {root, size, codec} written only by Insert/Delete, and the root-leaf delete stores the zero reference, so an emptied tree equals a new one (R25, R14); the only package-level state is the sync.Pool array used through Get/Put (R30) – hence trees share no mutable memory except cleared, unreferenced pool objects. R24 also: every replace site releases the old node by the same idiom; R42 nothing a constructor or option stores into a tree is a package-level object. R49 an object handed to a sync.Pool other than the node pool table (a pooled traversal stack) goes back empty or is emptied by every taker, and is not used after Put; R25 accepts further tree fields only when constructors and options alone write them.",
+		Rules:      []string{"R24", "R25", "R30", "R06", "R14", "R42", "R03", "R04"},
+		Explain:    "Pool typestate for each of the 7 releases: the node is cleared in the statement before Put, clear() resets every field of the struct (header included), the node is not used after release, the slot referencing it was overwritten before, its type matches the pool index, and every Get is asserted to the layout of its index (R24, R06); the only per-tree state is {root, size, codec} written only by Insert/Delete, and the root-leaf delete stores the zero reference, so an emptied tree equals a new one (R25, R14); the only package-level state is the sync.Pool array used through Get/Put (R30) – hence trees share no mutable memory except cleared, unreferenced pool objects. R24 also: every replace site releases the old node by the same idiom; R42 nothing a constructor or option stores into a tree is a package-level object. R49 an object handed to a sync.Pool other than the node pool table (a pooled traversal stack) goes back empty or is emptied by every taker, and is not used after Put; R25 accepts further tree fields only when constructors and options alone write them. R03/R04: the size counter moves with every link and unlink (an Insert that links without counting leaves an emptied tree with a size other than 0).",
 		NotDecided: "Nothing value-level beyond C01/C11; sync.Pool's own behaviour is trusted."})
 	registerProp(&propSpec{ID: "C18", Level: "other", DesignRef: "§4 C18",
 		Rules:      []string{"R32", "R33", "R06", "R16"},
@@ -152,6 +153,9 @@ func init() {
 	nodeLayer := []string{"R06", "R07", "R09", "R10", "R19", "R21", "R22", "R37", "R41", "R43", "R44", "R47", "R53"}
 	for _, r := range nodeLayer {
 		impliedProps[r] = append(impliedProps[r], "C01", "C02", "C06", "C08", "C09", "C10", "C11")
+		// … and what the ordered queries return: a child that is lost, overwritten or reachable
+		// under two bytes is missing from (or doubled in) Range, Prefix, Minimum/Maximum, TopK
+		impliedProps[r] = append(impliedProps[r], "C03", "C04", "C05")
 	}
 	// a lookup that finds a child that is not registered (a stale lane, a ghost slot) lets a Delete
 	// of an absent key succeed: the no-op half of C15
@@ -187,12 +191,13 @@ func init() {
 	impliedProps["R15"] = append(impliedProps["R15"], "C01", "C02")
 	impliedProps["R48"] = append(impliedProps["R48"], "C17")
 	impliedProps["R49"] = append(impliedProps["R49"], "C12", "C14", "C16")
-	impliedProps["R50"] = append(impliedProps["R50"], "C11", "C17", "C05", "C12") // a dead node left behind: an emptied tree is not like a new one
-	impliedProps["R11"] = append(impliedProps["R11"], "C09", "C08", "C02", "C04") // the worklists are shared by every tree kind
+	impliedProps["R50"] = append(impliedProps["R50"], "C11", "C17", "C05", "C12", "C01", "C03", "C08", "C09") // a dead node left behind: an emptied tree is not like a new one
+	impliedProps["R11"] = append(impliedProps["R11"], "C09", "C08", "C02", "C04")                             // the worklists are shared by every tree kind
 	impliedProps["R51"] = append(impliedProps["R51"], "C06", "C01", "C11", "C15")
 	impliedProps["R52"] = append(impliedProps["R52"], "C04", "C08")
 	impliedProps["R54"] = append(impliedProps["R54"], "C03", "C09")
-	impliedProps["R20"] = append(impliedProps["R20"], "C15", "C06") // the lane search of the 16-class matching beyond the fill count: Delete of an absent key removes a live child
+	impliedProps["R32"] = append(impliedProps["R32"], "C01", "C02", "C07") // a value read through a pointer of another width or layout: keys and values handed back are not the stored ones
+	impliedProps["R20"] = append(impliedProps["R20"], "C15", "C06")        // the lane search of the 16-class matching beyond the fill count: Delete of an absent key removes a live child
 	impliedProps["R55"] = append(impliedProps["R55"], "C16", "C12", "C11", "C01", "C18", "C08")
 	// a stored key that aliases the caller's buffer changes under the tree: pairs vanish from
 	// lookups and iteration
@@ -205,6 +210,35 @@ func init() {
 	// a fan-out counter that no longer follows the removals keeps the shrink thresholds from firing
 	impliedProps["R41"] = append(impliedProps["R41"], "C17")
 	impliedProps["R29"] = append(impliedProps["R29"], "C08")
+	// Insert decides between "overwrite the value" and "link a leaf and count it" by comparing the
+	// new key with the stored one: bytes built differently from the stored ones (R08), a leaf field
+	// that does not hold what getKey() is compared with (R16), or stored bytes the caller can still
+	// change (R26) make a present key count twice – Size() drifts from the number of pairs
+	impliedProps["R08"] = append(impliedProps["R08"], "C06")
+	// compound keys are concatenations of the library's fixed-width numeric encodings: an encoding
+	// that is not an order isomorphism misorders the tuples (C09)
+	impliedProps["R15"] = append(impliedProps["R15"], "C09")
+	// Minimum/Maximum/TopK/BottomK hand the stored key back through Restore: a decoding that does
+	// not invert the encoding reports a key that is not the stored extreme
+	impliedProps["R15"] = append(impliedProps["R15"], "C05")
+	// the hand-written copy and the template disagree on how Insert or Delete place, split or
+	// unlink: one of the two leaves a key where its bytes do not lead (C11)
+	impliedProps["R36"] = append(impliedProps["R36"], "C11")
+	// a fan-out that no longer follows the real number of children keeps the shrink and collapse
+	// thresholds from firing: a tree emptied by deletions keeps inner nodes a new tree does not have
+	for _, r := range []string{"R21", "R41", "R43"} {
+		impliedProps[r] = append(impliedProps[r], "C12")
+	}
+	// a node that changes its size class through a copy of its slot is not the node the tree
+	// reaches afterwards: the slot still shows the old, cleared node, and probing it finds nothing
+	impliedProps["R55"] = append(impliedProps["R55"], "C10")
+	// the wrapped counter of a full node of the widest class
+	impliedProps["R56"] = append(impliedProps["R56"], "C15", "C06", "C01", "C05", "C10", "C11", "C12", "C17")
+	impliedProps["R16"] = append(impliedProps["R16"], "C06")
+	impliedProps["R26"] = append(impliedProps["R26"], "C06")
+	// … and lets a later Delete or Insert act on another key than the one it is given: the no-op
+	// half of C15 (a Delete of an absent key removes a stored one)
+	impliedProps["R26"] = append(impliedProps["R26"], "C15")
 	for r, ps := range impliedProps {
 		for _, p := range ps {
 			spec := propTable[p]
